@@ -254,6 +254,7 @@ func runC03(s c03Scen, c *ev.Case) *ev.Violation {
 		return harnessErr("subscribe: %v %v", code, err)
 	}
 	var emitted []string // uids with effective QoS > 0, in emission order
+	emitEpoch := map[string]int{}
 	uid := 0
 	sawCutWithInflight, sawSaturated := false, false
 	for i, op := range s.Ops {
@@ -262,6 +263,9 @@ func runC03(s c03Scen, c *ev.Case) *ev.Violation {
 		case "pub":
 			uid++
 			u := fmt.Sprintf("m%03d", uid)
+			r.mu.Lock()
+			emitEpoch[u] = r.epoch
+			r.mu.Unlock()
 			b.Srv.Publisher().Publish(&gmqtt.Message{Topic: "t", QoS: op.QoS, Payload: []byte(u)})
 			if minB(op.QoS, s.SQ) > 0 {
 				emitted = append(emitted, u)
@@ -377,9 +381,21 @@ func runC03(s c03Scen, c *ev.Case) *ev.Violation {
 					if f != nil {
 						return ev.Violf("C03.redelivery-after-ack", "message %s delivered again although its acknowledgement was confirmed (id %d)", e.UID, e.ID)
 					}
-					// new message
+					// new message (for S). DUP=1 is legitimate only if the broker may already have transmitted it on an
+					// earlier connection that was cut before S read it.
 					if e.Dup {
-						return ev.Violf("C03.first-dup", "first transmission of %s has DUP=1", e.UID).With("epoch", ep)
+						if emitEpoch[e.UID] >= ep {
+							return ev.Violf("C03.first-dup", "first transmission of %s has DUP=1", e.UID).With("epoch", ep)
+						}
+						if seenNew {
+							return ev.Violf("C03.retransmit-after-new", "retransmission of %s (id %d, first transmission unseen) arrived after a new message", e.UID, e.ID)
+						}
+						order++
+						flows[e.UID] = &c03Flow{id: e.ID, uid: e.UID, qos: e.QoS, state: "pub", order: order, pubEpoch: ep}
+						firstSeen = append(firstSeen, e.UID)
+						retransmitted[e.UID] = true
+						lastRetransOrder = order
+						goto windowCheck
 					}
 					if g := byID(e.ID); g != nil && !(g.state == "done") {
 						return ev.Violf("C03.id-reuse", "new message %s uses packet id %d which still awaits acknowledgement (uid %s, state %s)", e.UID, e.ID, g.uid, g.state).
@@ -421,6 +437,7 @@ func runC03(s c03Scen, c *ev.Case) *ev.Violation {
 					retransmitted[f.uid] = true
 					f.state, f.unsure, f.pubEpoch = "pub", false, ep
 				}
+			windowCheck:
 				// window: PUBLISH packets received on this connection and not yet completed by S
 				n := 0
 				for _, g := range flows {
